@@ -129,3 +129,25 @@ Example ex_spin_equations_hold : validate ex_src ex_spin ex_spin_h = true.     (
 Proof. vm_compute. reflexivity. Qed.
 Example ex_spin_rejected : validate_full ex_src ex_spin ex_spin_h = false.
 Proof. vm_compute. reflexivity. Qed.
+
+(* 10. annotated jump table: v1 := arg; v2 := const; switch (f v1) { L1: v2 := g v2; (falls through) L2: return v2 } *)
+Definition ex_src_jt : sprog :=
+  [ SOp 10 [] [(1, 8%nat)]; SOp 11 [] [(2, 8%nat)]; SJmpTab 20 [(1, 8%nat)] [1; 2]; SLabel 1;
+    SOp 21 [(2, 8%nat)] [(2, 8%nat)]; SLabel 2; SMove 100 2 8; SRet [(100, 8%nat)] ].
+Definition ex_jt_good : tprog :=
+  [ TOp 10 [] [(rdi, 8%nat)]; TOp 11 [] [(rcx, 8%nat)]; TJmpTab 20 [(rdi, 8%nat)] [1; 2]; TLabel 1;
+    TOp 21 [(rcx, 8%nat)] [(rcx, 8%nat)]; TLabel 2; TMove rax rcx 8 false 8; TRet [(rax, 8%nat)] ].
+Example ex_jt_good_accepted : validate_full ex_src_jt ex_jt_good [Some 0; Some 1; Some 2; Some 3; Some 4; Some 5; None; Some 7]%nat = true.
+Proof. vm_compute. reflexivity. Qed.
+(* the case-1 block moves v2 to rdx, the shared target L2 is entered with v2 in rcx from the table and in rdx by falling through *)
+Definition ex_jt_bad : tprog :=
+  [ TOp 10 [] [(rdi, 8%nat)]; TOp 11 [] [(rcx, 8%nat)]; TJmpTab 20 [(rdi, 8%nat)] [1; 2]; TLabel 1;
+    TOp 21 [(rcx, 8%nat)] [(rdx, 8%nat)]; TLabel 2; TMove rax rdx 8 false 8; TRet [(rax, 8%nat)] ].
+Example ex_jt_bad_rejected : validate ex_src_jt ex_jt_bad [Some 0; Some 1; Some 2; Some 3; Some 4; Some 5; None; Some 7]%nat = false.
+Proof. vm_compute. reflexivity. Qed.
+(* a table that lists its targets in another order is refused as well *)
+Definition ex_jt_perm : tprog :=
+  [ TOp 10 [] [(rdi, 8%nat)]; TOp 11 [] [(rcx, 8%nat)]; TJmpTab 20 [(rdi, 8%nat)] [2; 1]; TLabel 1;
+    TOp 21 [(rcx, 8%nat)] [(rcx, 8%nat)]; TLabel 2; TMove rax rcx 8 false 8; TRet [(rax, 8%nat)] ].
+Example ex_jt_perm_rejected : validate ex_src_jt ex_jt_perm [Some 0; Some 1; Some 2; Some 3; Some 4; Some 5; None; Some 7]%nat = false.
+Proof. vm_compute. reflexivity. Qed.
